@@ -199,6 +199,14 @@ Theorem C07_record_marshal_roundtrip : forall r rest, record_ok r = true -> d_re
 Proof. exact record_marshal_roundtrip. Qed.
 Print Assumptions C07_record_marshal_roundtrip.
 
+(* every strict prefix of a marshalled record is rejected (the real Record.Unmarshal has no error result: it faults on every
+   non-empty strict prefix handed over without spare capacity, and leaves the destination untouched for the empty one);
+   bytes after a complete record are left unread (C07_record_marshal_roundtrip with rest) *)
+Theorem C07_record_prefix_rejected : forall r k, record_ok r = true -> (k < length (e_record r))%nat ->
+  d_record (firstn k (e_record r)) = None.
+Proof. exact record_prefix_rejected. Qed.
+Print Assumptions C07_record_prefix_rejected.
+
 Example C07_ex_record :
   let r : rrecord := ([([105], 1); ([116;105;109;101], 1)],
                       [(2, (1, (0, ([5;0;0;0;0;0;0;0], ([1], [])))));
